@@ -45,6 +45,8 @@ def variant(cfg):
         v += "+subcode"   # slope*2^(bits-1) < 1: saturation below one code
     if not kw.get("is_quantized_clip", True):
       v += "+upper" if kw.get("relu_upper_bound") is not None else "+unclipped"
+    elif kw.get("relu_upper_bound") is not None:
+      v += "+upper_ignored"   # is_quantized_clip (default) has precedence
     return v
   return cfg.get("sigmoid", "hard") if not (kw.get("use_real_tanh") or kw.get("use_real_sigmoid")) else "own_real"
 
@@ -72,6 +74,8 @@ def oracle(cfg, xs, shape=None, full_walk=False, stats=None):
     base["sr_infer"] = True     # stochastic-rounding flag set, inference phase
   if cfg.get("from") is not None:
     base["redeclared"] = True   # attributes re-assigned on a live object
+  if cfg["kw"].get("use_ste") is False:
+    base["nonste"] = True       # use_ste=False blend
 
   def one(i):
     return {"cfg": cfg, "xs": [float(xs[i])], "shape": [1]}
